@@ -170,8 +170,33 @@ def awkward_coordinates(draw):
     return spec
 
 
+@st.composite
+def shifted_east(draw):
+    """Models on a 0..360 longitude grid: every x coordinate moved east by 200 degrees, so that
+    some or all cells lie beyond 180."""
+    spec = draw(S.dataset_spec(with_vars=False, modes=("raw",), geom_kwargs={"max_n": 3}))
+    g = spec["geom"]
+    shift = draw(st.sampled_from([190.0, 200.0, 25.0]))
+
+    def move(item):
+        if item is None:
+            return None
+        if len(item) == 2 and all(isinstance(v, (int, float)) for v in item):
+            return [item[0] + shift, item[1]]
+        return [move(p) for p in item]
+    if g.get("nodes") is not None:
+        g["nodes"] = move(g["nodes"])
+    if g.get("lon") is not None:
+        g["lon"] = [v + shift for v in g["lon"]]
+        if g.get("lon_bounds") is not None:
+            g["lon_bounds"] = [[a + shift, b + shift] for a, b in g["lon_bounds"]]
+    spec["shifted_east_by"] = shift
+    return spec
+
+
 SUBS = [
     Sub("export", strategy, check_spec, quick=250, thorough=1000),
     Sub("export_awkward_coordinates", lambda tier: awkward_coordinates(), check_spec, quick=80, thorough=400),
+    Sub("export_east_of_180", lambda tier: shifted_east(), check_spec, quick=40, thorough=200),
 ]
 MATCHERS = {}
